@@ -186,7 +186,10 @@ D3 = ([("envelope", ":is", ["From"], ["a@b"])], [("fileinto", ":create", "New"),
 D4 = ([("body", ":raw", ":contains", "matteo")], [("reject", "no thanks")], "anyof")
 D5 = ([("currentdate", ":zone", "+0100", ":value", "ge", "date", "2019-02-26")], [("vacation", ":days", 7, ":subject", "Away", "Gone")], "anyof")
 D6 = ([("Sender", ":notcontains", "spam")], [("setflag", "\\Seen"), ("discard",)], "anyof")
-DEFS = {"d1": D1, "d2": D2, "d3": D3, "d4": D4, "d5": D5, "d6": D6}
+D7 = ([("Subject", ":contains", "core only")], [("keep",), ("stop",)], "anyof")  # needs no extension: its set renders without a require line
+D8 = ([("Subject", ":is", "flag me")], [("keep", ":flags", "\\Seen")], "anyof")  # imap4flags needed through a tag only
+D9 = ([("X-List", ":matches", "*")], [("fileinto", ":flags", ["\\Seen", "\\Flagged"], ":copy", "Lists"), ("stop",)], "allof")
+DEFS = {"d1": D1, "d2": D2, "d3": D3, "d4": D4, "d5": D5, "d6": D6, "d7": D7, "d8": D8, "d9": D9}
 
 
 def new_set(ns, name="t", **kw):
